@@ -303,8 +303,11 @@ def classify_many(judge, asts, prefix):
             # explicit parentheses; (b) parenthesising only child i repairs the node; (c), (d) the same two tests with
             # plain variables instead of parentheses (for children that cannot carry a parenthesis node)
             tests = [(0, 'fail'), (n, 'pass'), (2 * n, 'fail'), (3 * n, 'pass')]
+            fixable = [par_wrap(c) != c for _i, _r, c in cand]
             for base, want in tests:
                 for k, (i, r, c) in enumerate(cand):
+                    if base == 0 and not all(f for kk, f in enumerate(fixable) if kk != k):
+                        continue        # test (a) says nothing when another child cannot be given parentheses
                     if vres[off + base + k][0] == want:
                         role = 'arg' if r.startswith('arg') else r
                         key = f'{prefix}:{X.kind_of(node)}.{role}<-{X.kind_of(c)}:{TYCLASS[X.static_type_safe(c, env)]}'
